@@ -8,6 +8,8 @@
 # The scratch copy lives in $MICRO_REPO (default /root/work/scratch_micro/micro_repo).  At the end everything is
 # regenerated from /repo again.
 cd "$(dirname "$0")/.." || exit 2
+# a scratch sink: extract.py REPLACES its --json target by rename, so it must never be given /dev/null
+SINK=$(mktemp /tmp/micro_sink.XXXXXX)
 C=${MICRO_REPO:-/root/work/scratch_micro/micro_repo}
 TESTS=0; FULL=0
 while [ $# -gt 0 ]; do case "$1" in -t) TESTS=1; shift;; -f) FULL=1; shift;; *) break;; esac; done
@@ -24,27 +26,27 @@ for t in json.load(open('tools/ties.json')):
 " "$1" | tr '\n' ' '; }
 LOG=$(mktemp /tmp/micro_one.XXXXXX)
 rm -rf "$C"; mkdir -p "$C"; (cd /repo && git archive HEAD) | tar -x -C "$C"
-(cd "$C" && git init -q && git add -A >/dev/null 2>&1 && git -c user.email=x@x -c user.name=x commit -qm base >/dev/null)
-if [ $# -eq 0 ]; then set -- $(ls seeded/micro-refactors/m[7-9][0-9]*.diff seeded/micro-refactors/m[1-9][0-9][0-9]*.diff 2>/dev/null); fi
+(cd "$C" && git init -q && git add -A >"$SINK.out" 2>&1 && git -c user.email=x@x -c user.name=x commit -qm base >"$SINK.out")
+if [ $# -eq 0 ]; then set -- $(ls seeded/micro-refactors/m[7-9][0-9]*.diff seeded/micro-refactors/m[1-9][0-9][0-9]*.diff 2>"$SINK.out"); fi
 for a in "$@"; do
-  d=$a; [ -f "$d" ] || d=$(ls seeded/micro-refactors/${a}_*.diff 2>/dev/null | head -1)
+  d=$a; [ -f "$d" ] || d=$(ls seeded/micro-refactors/${a}_*.diff 2>"$SINK.out" | head -1)
   [ -f "$d" ] || { echo "$a: no such rewrite"; continue; }
   git -C "$C" checkout -q -- .; git -C "$C" apply "$(pwd)/$d" || { echo "$d: does not apply"; continue; }
   tt=""
   if [ $TESTS = 1 ]; then tt="[$(cd "$C" && PYTHONDONTWRITEBYTECODE=1 PYTHONPATH="$C/src" /venv/bin/python -m pytest -q -p no:cacheprovider --no-cov 2>&1 | tail -1 | cut -c1-40)] "; fi
-  /venv/bin/python tools/extract.py --repo "$C" --out lean/AioMySensors/Generated/Tables.lean --json /dev/null >/dev/null 2>&1
-  t=$(/venv/bin/python tools/translate.py --repo "$C" $OUTS --snapshot tools/bodies_snapshot.json --json /dev/null | cut -c1-200)
+  /venv/bin/python tools/extract.py --repo "$C" --out lean/AioMySensors/Generated/Tables.lean --json "$SINK" >"$SINK.out" 2>&1
+  t=$(/venv/bin/python tools/translate.py --repo "$C" $OUTS --snapshot tools/bodies_snapshot.json --json "$SINK" | cut -c1-200)
   x=$(xtranslate "$C")
   # as harness/check.py does: a fresh translation that does not type-check is replaced by the committed snapshot
   g=""
   if ! (cd lean && lake build $GMODS >"$LOG" 2>&1); then
     g="[GENERATED TEXT DOES NOT TYPE-CHECK -> snapshot: $(grep -m1 'error:' "$LOG" | cut -c1-160)] "
-    /venv/bin/python tools/translate.py --repo "$C" $OUTS --snapshot tools/bodies_snapshot.json --json /dev/null --force-snapshot >/dev/null
+    /venv/bin/python tools/translate.py --repo "$C" $OUTS --snapshot tools/bodies_snapshot.json --json "$SINK" --force-snapshot >"$SINK.out"
   fi
   if (cd lean && lake build $MODS $XMODS >"$LOG" 2>&1); then r="${g}equalities hold"; else r="${g}EQUALITY BROKEN: $(grep -m3 'error:' "$LOG" | tr '\n' ' ' | cut -c1-300)"; mkdir -p "${MICRO_LOGS:-/tmp}"; cp "$LOG" "${MICRO_LOGS:-/tmp}/$(basename "$d" .diff).log"; fi
   echo "$(basename "$d" .diff): $tt$t | $x-> $r"
 done
-rm -rf "$C" "$LOG"
+rm -rf "$C" "$LOG" "$SINK" "$SINK.out"
 /venv/bin/python tools/extract.py --repo /repo --out lean/AioMySensors/Generated/Tables.lean --json tools/tables.json | tail -1
 /venv/bin/python tools/translate.py --repo /repo $OUTS --snapshot tools/bodies_snapshot.json --json tools/bodies_status.json | cut -c1-60
 xtranslate /repo; echo
